@@ -6,7 +6,7 @@ from hv.worlds import profile
 hprop.install(globals(), hprop.HistoryProperty(
     prop="C07",
     monitors=lambda: [C07Location()],
-    profile=profile(nv=(2, 6), n_requests=(0, 25), socs=[0.02, 0.1, 0.3, 0.8, 0.97], steps=[1, 2, 5, 15, 30, 45, 60, 60, 90, 120, 300, 600],
+    profile=profile(nv=(2, 6), n_requests=(6, 30), socs=[0.02, 0.1, 0.3, 0.8, 0.97], steps=[1, 2, 5, 15, 30, 45, 60, 60, 90, 120, 300, 600], builtin=[True, True, False],
                     nets=["hav", "gen", "gen", "denver"]),
     nontrivial=lambda f: {"stationary_entered", "stationary_instruction_remote_target", "arrival_by_default_transition"} <= f,
     rule=("stateful histories over generated worlds on straight-line, generated street-graph and Denver networks; directives biased "
@@ -15,7 +15,7 @@ hprop.install(globals(), hprop.HistoryProperty(
           "its position and target; pickup/drop-off events with request origin/destination. non-trivial = >=1 stationary activity "
           "entered AND >=1 stationary instruction naming a remote target AND >=1 arrival by default transition; distinct = sha1(world, op log)"),
     assumptions=hprop.COMMON_ASSUMPTIONS,
-    quick=(16, 60, 35), thorough=(16, 1500, 60), probes=True,
+    quick=(16, 100, 35), thorough=(16, 1200, 60), probes=True,
     instr_bias={"relocate": True, "kinds": [3, 3, 3, 4, 4, 4, 6, 6, 6, 2, 5, 1, 0, 8, 7], "tclasses": [0, 1, 2, 2, 2, 2, 3, 5]},
 ))
 FLOORS = {"quick": {"flag:stationary_instruction_remote_target": 60}, "thorough": {"flag:stationary_instruction_remote_target": 1000}}
